@@ -52,11 +52,12 @@ Definition contiguous_b (dims : list (nat * nat)) : bool :=
                                 if Nat.eqb (fst d) 1 then (expect, ok)
                                 else (expect * fst d, ok && Nat.eqb (snd d) expect)) (1, true) dims).
 
-(** stable insertion sort by descending stride ([l.sort(reverse=True, key=stride)]) *)
+(** stable insertion sort by descending stride ([l.sort(reverse=True, key=stride)]: equal keys keep
+    their original order) *)
 Fixpoint insert_desc (d : nat * nat) (l : list (nat * nat)) : list (nat * nat) :=
   match l with
   | [] => [d]
-  | x :: l' => if snd x <? snd d then d :: l else x :: insert_desc d l'
+  | x :: l' => if snd x <=? snd d then d :: l else x :: insert_desc d l'
   end.
 Definition sort_desc (l : list (nat * nat)) : list (nat * nat) := fold_right insert_desc [] l.
 
